@@ -95,13 +95,24 @@ def c02_eval(ad, x, kw=None):
     return None
 
 
+def _with_cause(ad, x, res):
+    """a failure on an object that lies in a region where the model *proves* the code deviates gets the
+    signature of that deviation (site + kind), so that only that deviation can be listed as known"""
+    if res is None or not hasattr(ad, "known_cause"):
+        return res
+    cause = ad.known_cause(x)
+    if cause is None:
+        return res
+    return (f"{ad.key}:{cause}", res[1] + f" [{cause}]")
+
+
 def search_c02(ctx, ad, n):
     rng = ctx.rng
     for i in range(n):
         natom = ad.pick_natom(rng, i, ctx.thorough) if hasattr(ad, "pick_natom") else F.pick_natom(rng, i, ctx.thorough)
         spec = ad.free_spec(rng, natom, i)
         x = ad.free_build(spec)
-        res = c02_eval(ad, x)
+        res = _with_cause(ad, x, c02_eval(ad, x))
         ctx.count(f"search:{ad.key}", spec.get("seed", i), ad.free_class(spec) + ("" if res is None else "/FAIL"),
                   sample={"format": ad.key, "natom": natom})
         if res:
@@ -147,7 +158,7 @@ def search_c15(ctx, ad, n):
         natom = ad.pick_natom(rng, i, ctx.thorough) if hasattr(ad, "pick_natom") else F.pick_natom(rng, i, ctx.thorough)
         spec = ad.free_spec(rng, natom, i)
         x = ad.free_build(spec)
-        res = c15_eval(ad, x)
+        res = _with_cause(ad, x, c15_eval(ad, x))
         ctx.count(f"cycles:{ad.key}", spec.get("seed", i), ad.free_class(spec) + ("" if res is None else "/FAIL"),
                   sample={"format": ad.key, "natom": natom})
         if res:
